@@ -82,13 +82,16 @@ class UnitF(Unit):
                         'text': ' -> (r: Option<String>) ensures match r { Some(m) => bound_ns(*doc, ns@) is Some && m@ == bound_ns(*doc, ns@)->0.rust_mod_name@, '
                                 'None => bound_ns(*doc, ns@) is None }'})
         ens, org = [], {}
+        # a prefix bound to a namespace of the schema set denotes a component of THAT namespace (C09), even one called like a builtin;
+        # the builtin table applies to the other references (prefix of the XSD namespace, which is never registered, or no prefix)
+        USER = '(prefix_of(node_type@) is Some && bound_ns(*doc, prefix_of(node_type@)->0) is Some)'
         for b, v in BUILTIN_ROWS:
             rhs = f'res is {v}' if v else '(res is I32 || res is I64)'
-            ens.append((f'builtin-{b}', f'local_of(node_type@) == "{b}"@ ==> {rhs}'))
+            ens.append((f'builtin-{b}', f'!{USER} && local_of(node_type@) == "{b}"@ ==> {rhs}'))
             org[f'builtin-{b}'] = 'property'
         isb = ' || '.join(f'local_of(node_type@) == "{b}"@' for b, _ in BUILTIN_ROWS)
         ens.append(('named-type-in-module-of-its-prefix',
-                    f'!({isb}) ==> res is Other && res->Other_0.name@ == pascal(local_of(node_type@)) && '
+                    f'({USER} || !({isb})) ==> res is Other && res->Other_0.name@ == pascal(local_of(node_type@)) && '
                     '(match prefix_of(node_type@) { Some(p) => (match bound_ns(*doc, p) { '
                     'Some(ns) => res->Other_0.module is Some && res->Other_0.module->0@ == ns.rust_mod_name@, None => res->Other_0.module is None }), '
                     'None => res->Other_0.module is None })'))
